@@ -18,7 +18,7 @@ DECLS_PAREN = [('b', 'url(a;b)'), ('b', 'f({)')]
 COMMENT = '/* } ; : { */'
 # comments in rotation: terminators preceded by further asterisks, empty comments
 COMMENTS = [COMMENT, '/** } **/', '/***/', '/* a*b ; **/', '/**/', '/* {* / */']
-LAYOUTS = ('compact', 'spaced', 'space-before-semicolon', 'comment-before-semicolon')
+LAYOUTS = ('compact', 'spaced', 'space-before-semicolon', 'comment-before-semicolon', 'glued-comment-before-semicolon')
 # extended declaration menu for the action helpers (C17): value tokens recorded
 DECLS_TOKENS = [
     ('b', '1px solid red', [(0, 3), (4, 9), (10, 13)]),
@@ -125,6 +125,8 @@ def emit(shape, rotation=0, layout='compact', decls=None, last_without_semicolon
                     w(' ')
                 elif layout == 'comment-before-semicolon':
                     w(' /* } */ ')
+                elif layout == 'glued-comment-before-semicolon':
+                    w('/* was 1px; } */')          # no blank between the value and the comment
                 rec['semicolon'] = pos[0]
                 w(';')
                 rec['start'], rec['end'] = s, pos[0]
